@@ -1,6 +1,6 @@
 (* Model of Pbox.add / sub / mul / div under the four dependency assumptions (pbox_abc.py). *)
 From Coq Require Import List Bool ZArith Arith.
-From PUN Require Import Base.Num Base.Sort Model.Interval Model.Pbox Gen.GenGlue.
+From PUN Require Import Base.Num Base.Sort Model.Interval Model.Pbox.
 From PUN Require Export Model.PboxBase.
 Import ListNotations.
 
@@ -18,18 +18,100 @@ Definition padd (d : dep) (p q : pb) : res pb :=
 Definition psub (d : dep) (p q : pb) : res pb :=
   rbind (pneg N steps p_lo p_hi q) (fun nq => padd (swap_po d) p nq).
 
-Notation p_lo_ := (PboxBase.p_lo_ N).
-Notation p_hi_ := (PboxBase.p_hi_ N).
-Notation straddles_zero := (PboxBase.straddles_zero N).
-Definition classic_mul (p q : pb) : res pb :=
-  let '(l, r) := frechet_op N (nmul N) (fst p) (snd p) (fst q) (snd q) in mk l r.
-Definition classic_add (p q : pb) : res pb :=
-  let '(l, r) := frechet_op N (nadd N) (fst p) (snd p) (fst q) (snd q) in mk l r.
-(* frechet_pbox_mul, nagative_frechet_pbox, straddle_frechet_pbox (naive bound, Balch product, imposition) and Staircase.balchprod are the
-   functions TRANSLATED from pba/pbox_abc.py on every run (Gen/GenGlue.v).  They call each other recursively (the Balch product multiplies
-   shifted, non-negative operands); the translation carries explicit fuel, and four levels are more than any call chain needs. *)
+(* ---------- the default (Frechet) product: frechet_pbox_mul and its helpers ----------
+   Hand-kept model of pbox_abc.py: classic_frechet_pbox, vectorised_naive_frechet_pbox, nagative_frechet_pbox (sic), frechet_pbox_mul,
+   straddle_frechet_pbox (naive bound, Balch product, imposition) and Staircase.balchprod.  The last three call each other (the Balch
+   product multiplies shifted, non-negative operands), hence the explicit fuel.  Proofs/Glue.v proves that the functions TRANSLATED from the
+   source on every run (Gen/GenGlue.v) are equal to these, so a change of the source breaks that proof while this model - the one the
+   implementation is compared with - keeps the intended behaviour. *)
+Definition m_classic_frechet_pbox (x y : pb) (op : N -> N -> N) : res pb :=
+  (let '(v_left, v_right) := frechet_op N op (fst x) (snd x) (fst y) (snd y) in
+    (rbind (mk v_left v_right) (fun v_p =>
+    (Ok v_p)))).
+
+Definition m_vectorised_naive_frechet_pbox (x y : pb) (op : N -> N -> N) : res pb :=
+  (let '(v_Zu, v_Zd) := naive_frechet_op N op (fst x) (snd x) (fst y) (snd y) in
+    (rbind (mk v_Zu v_Zd) (fun v_p =>
+    (Ok v_p)))).
+
+Definition m_nagative_frechet_pbox (x y : pb) : res pb :=
+  (if ((nleb N (p_hi_ N x) nzero) || (nleb N (p_hi_ N y) nzero)) then (rbind (if (nleb N (p_hi_ N x) nzero) then (pneg N steps p_lo p_hi x) else (Ok x)) (fun v_a =>
+    (rbind (if (nleb N (p_hi_ N y) nzero) then (pneg N steps p_lo p_hi y) else (Ok y)) (fun v_b =>
+    (rbind (m_classic_frechet_pbox v_a v_b (nmul N)) (fun v_result =>
+    (if (xorb (nleb N (p_hi_ N x) nzero) (nleb N (p_hi_ N y) nzero)) then (pneg N steps p_lo p_hi v_result) else (Ok v_result))))))))
+   else (Raise OtherExn)).
+
+
+Fixpoint m_frechet_pbox_mul (fuel : nat) (x y : pb) {struct fuel} : res pb :=
+  match fuel with
+  | O => NotImpl
+  | S fuel =>
+    let balchprod_ := (fun self other : pb =>
+  (if ((straddles_zero N self) && (straddles_zero N other)) then (let v_x0 := (p_lo_ N self) in
+    (let v_y0 := (p_lo_ N other) in
+    (rbind (pnum N steps p_lo p_hi (nsub N) self v_x0) (fun v_xx0 =>
+    (rbind (pnum N steps p_lo p_hi (nsub N) other v_y0) (fun v_yy0 =>
+    (rbind (m_frechet_pbox_mul fuel v_xx0 v_yy0) (fun v_a =>
+    (rbind (pnum N steps p_lo p_hi (nmul N) v_xx0 v_y0) (fun t1 =>
+    (rbind (pnum N steps p_lo p_hi (nmul N) v_yy0 v_x0) (fun v_b2 =>
+    (let v_b1 := t1 in (rbind (m_classic_frechet_pbox v_b1 v_b2 (nadd N)) (fun v_b =>
+    (rbind (m_classic_frechet_pbox v_a v_b (nadd N)) (fun t2 =>
+    (pnum N steps p_lo p_hi (nadd N) t2 (nmul N v_x0 v_y0)))))))))))))))))))
+   else (if (straddles_zero N self) then (let v_x0 := (p_lo_ N self) in
+    (rbind (pnum N steps p_lo p_hi (nsub N) self v_x0) (fun v_xx0 =>
+    (rbind (m_frechet_pbox_mul fuel v_xx0 other) (fun v_a =>
+    (rbind (pnum N steps p_lo p_hi (nmul N) other v_x0) (fun v_b =>
+    (m_frechet_pbox_mul fuel v_a v_b))))))))
+   else (if (straddles_zero N other) then (let v_y0 := (p_lo_ N other) in
+    (rbind (pnum N steps p_lo p_hi (nsub N) other v_y0) (fun v_yy0 =>
+    (rbind (m_frechet_pbox_mul fuel self v_yy0) (fun v_a =>
+    (rbind (pnum N steps p_lo p_hi (nmul N) self v_y0) (fun v_b =>
+    (m_classic_frechet_pbox v_a v_b (nadd N)))))))))
+   else (m_frechet_pbox_mul fuel self other))))) in
+    let straddle_ := (fun x y : pb =>
+  (rbind (m_vectorised_naive_frechet_pbox x y (nmul N)) (fun v_naive_base_p =>
+    (rbind (balchprod_ x y) (fun v_balch_p =>
+    (rbind (pimp N steps p_lo p_hi v_naive_base_p v_balch_p) (fun v_imp_p =>
+    (Ok v_imp_p)))))))) in
+  (if ((straddles_zero N x) || (straddles_zero N y)) then (if (straddles_zero N y) then (straddle_ x y)
+   else (straddle_ y x))
+   else (if ((nleb N (p_hi_ N x) nzero) || (nleb N (p_hi_ N y) nzero)) then (m_nagative_frechet_pbox x y)
+   else (m_classic_frechet_pbox x y (nmul N))))
+  end.
+
+Definition m_balchprod (fuel : nat) (self other : pb) : res pb :=
+  (if ((straddles_zero N self) && (straddles_zero N other)) then (let v_x0 := (p_lo_ N self) in
+    (let v_y0 := (p_lo_ N other) in
+    (rbind (pnum N steps p_lo p_hi (nsub N) self v_x0) (fun v_xx0 =>
+    (rbind (pnum N steps p_lo p_hi (nsub N) other v_y0) (fun v_yy0 =>
+    (rbind (m_frechet_pbox_mul fuel v_xx0 v_yy0) (fun v_a =>
+    (rbind (pnum N steps p_lo p_hi (nmul N) v_xx0 v_y0) (fun t1 =>
+    (rbind (pnum N steps p_lo p_hi (nmul N) v_yy0 v_x0) (fun v_b2 =>
+    (let v_b1 := t1 in (rbind (m_classic_frechet_pbox v_b1 v_b2 (nadd N)) (fun v_b =>
+    (rbind (m_classic_frechet_pbox v_a v_b (nadd N)) (fun t2 =>
+    (pnum N steps p_lo p_hi (nadd N) t2 (nmul N v_x0 v_y0)))))))))))))))))))
+   else (if (straddles_zero N self) then (let v_x0 := (p_lo_ N self) in
+    (rbind (pnum N steps p_lo p_hi (nsub N) self v_x0) (fun v_xx0 =>
+    (rbind (m_frechet_pbox_mul fuel v_xx0 other) (fun v_a =>
+    (rbind (pnum N steps p_lo p_hi (nmul N) other v_x0) (fun v_b =>
+    (m_frechet_pbox_mul fuel v_a v_b))))))))
+   else (if (straddles_zero N other) then (let v_y0 := (p_lo_ N other) in
+    (rbind (pnum N steps p_lo p_hi (nsub N) other v_y0) (fun v_yy0 =>
+    (rbind (m_frechet_pbox_mul fuel self v_yy0) (fun v_a =>
+    (rbind (pnum N steps p_lo p_hi (nmul N) self v_y0) (fun v_b =>
+    (m_classic_frechet_pbox v_a v_b (nadd N)))))))))
+   else (m_frechet_pbox_mul fuel self other)))).
+
+Definition m_straddle_frechet_pbox (fuel : nat) (x y : pb) : res pb :=
+  (rbind (m_vectorised_naive_frechet_pbox x y (nmul N)) (fun v_naive_base_p =>
+    (rbind (m_balchprod fuel x y) (fun v_balch_p =>
+    (rbind (pimp N steps p_lo p_hi v_naive_base_p v_balch_p) (fun v_imp_p =>
+    (Ok v_imp_p))))))).
+
+
 Definition mul_fuel : nat := 4.
-Definition frechet_mul (p q : pb) : res pb := gen_frechet_pbox_mul N steps p_lo p_hi mul_fuel p q.
+Definition frechet_mul (p q : pb) : res pb := m_frechet_pbox_mul mul_fuel p q.
+Definition classic_mul (p q : pb) : res pb := m_classic_frechet_pbox p q (nmul N).
 Definition pmul (d : dep) (p q : pb) : res pb :=
   match d with
   | DF => frechet_mul p q
